@@ -69,6 +69,30 @@ Theorem C18_const_not_writable : forall c s rank F st n nd, Acyclic s rank -> (f
 Proof. exact const_not_writable. Qed.
 Print Assumptions C18_const_not_writable.
 
+(* The answers track the current values of the pIsLocked / pIsAvailable / pIsImplemented nodes: a
+   history step is a change of one leaf (a value slot, a register content: [upd st a b v]).  After
+   the step the verdict is the one of the new state — a node whose lock now says yes, or whose
+   availability / implementation node no longer says yes, is not reported writable (readable),
+   whatever was answered before — and when the leaf returns to its old value the old answers
+   return exactly (values and errors): nothing is remembered. *)
+Theorem C18_tracks_controls : forall c s rank F st n nd a b v,
+  Acyclic s rank -> (forall m, rank m < F) -> nth_error s n = Some nd ->
+  let st' := upd st a b v in
+  let st'' := upd st' a b (st a b) in
+  (Blocks s F st' nd -> is_writable c s F st' n <> Ok true) /\
+  (Hides s F st' nd -> is_readable c s F st' n <> Ok true) /\
+  is_writable c s F st'' n = is_writable c s F st n /\
+  is_readable c s F st'' n = is_readable c s F st n.
+Proof. exact tracks_controls. Qed.
+Print Assumptions C18_tracks_controls.
+
+(* the verdicts depend on the state only through its current leaf values *)
+Theorem C18_verdict_of_state : forall c s st st', (forall a b, st a b = st' a b) ->
+  forall F n, is_readable c s F st n = is_readable c s F st' n /\
+              is_writable c s F st n = is_writable c s F st' n.
+Proof. exact verdict_of_state. Qed.
+Print Assumptions C18_verdict_of_state.
+
 (* the two defects of the pinned code (repaired by the fix: commits 6f8a4ed and 6803abd):
    a SwissKnife over an unreadable variable was reported readable ... *)
 Theorem C18_swissknife_vars_refuted : exists s rank F st n,
